@@ -543,7 +543,7 @@ func init() {
 		}
 	}}
 	vrAlias("HTTP.handleCreateSession", "HTTP.handleDeleteSession")
-	d["HTTP.handleGetMessages"] = vrDriver{run: func(s *vrSys, r *rand.Rand) { s.longPoll(s.pick(r), 15*time.Millisecond) }}
+	d["HTTP.handleGetMessages"] = vrDriver{run: func(s *vrSys, r *rand.Rand) { s.longPoll(s.pick(r), 6*time.Millisecond) }}
 	vrAlias("HTTP.handleGetMessages", "HTTP.getMessages", "HTTP.pingTicker", "HTTP.setGetMessagesRequests", "HTTP.deleteGetMessagesRequests",
 		"HTTP.pingMessage", "HTTP.partitioned", "OutputStream.InterruptGetNext")
 
@@ -666,7 +666,7 @@ func vrSide(s *vrSys, d vrDriver, seed int64, iters int, partnerDone *int32, myD
 				atomic.StoreInt32(myDone, 1)
 			}
 			// a light operation keeps going (bounded) while a heavy partner still runs
-			if d.heavy || atomic.LoadInt32(partnerDone) == 1 || k >= 50*iters {
+			if d.heavy || atomic.LoadInt32(partnerDone) == 1 || k >= 20*iters {
 				return
 			}
 		}
@@ -722,13 +722,14 @@ func TestVerifRace(t *testing.T) {
 			db.prep(s)
 		}
 		fmt.Fprintf(os.Stderr, "VERIF-JOB-BEGIN %d %s %s\n", job.ID, job.A, job.B)
+		t0 := time.Now()
 		var wg sync.WaitGroup
 		var doneA, doneB int32
 		wg.Add(2)
 		go vrSide(s, da, plan.Seed*7919+int64(job.ID)*2+1, job.Iters, &doneB, &doneA, &wg)
 		go vrSide(s, db, plan.Seed*7919+int64(job.ID)*2+2, job.Iters, &doneA, &doneB, &wg)
 		wg.Wait()
-		fmt.Fprintf(os.Stderr, "VERIF-JOB-END %d panics=%d errs=%d\n", job.ID, atomic.LoadInt64(&s.panics), atomic.LoadInt64(&s.errs))
+		fmt.Fprintf(os.Stderr, "VERIF-JOB-END %d panics=%d errs=%d ms=%d\n", job.ID, atomic.LoadInt64(&s.panics), atomic.LoadInt64(&s.errs), time.Since(t0).Milliseconds())
 	}
 	s.stopPoll()
 	fmt.Fprintf(os.Stderr, "VERIF-RACE-DONE panics=%d errs=%d\n", atomic.LoadInt64(&s.panics), atomic.LoadInt64(&s.errs))
